@@ -3,13 +3,18 @@ import json, os
 import cybuild
 
 TITLE = "Pure-Python mode behaves the same interpreted and compiled"
-EXTRACTS = ["CMath"]
-RULE = ("(helper, a, b) triples: exhaustive 8-bit pairs, boundary lattice and PRNG full-width pairs for "
+EXTRACTS = ["CMath", "ShadowCast"]
+RULE = ("Shadow.cast/declare calls (type expression, argument list) against the extracted cast model; "
+        "(helper, a, b) triples: exhaustive 8-bit pairs, boundary lattice and PRNG full-width pairs for "
         "cdiv/cmod; float/int values for cast; each run three ways: Shadow.py (sources of /repo) under CPython, "
         "the same .py module compiled, and the extracted Gallina model; distinct by (helper, a, b)")
 EXPLANATION = ("theorems: Shadow.cdiv = Z.quot, Shadow.cmod = Z.rem for all integers with b<>0, hence equal to the "
-               "C operators on every C integer type. partial for general pure-mode programs: only a fixed family "
-               "of typed helper programs is run differentially.")
+               "C operators on every C integer type; Shadow.cast/declare/typedef (Model/M_ShadowCast.v): typedef/const/"
+               "volatile layers of any depth are transparent, cast to a C integer type is the identity on in-range "
+               "integers and C's toward-zero conversion on every finite float, cast of an integer to a C floating "
+               "type is exact below 2^53 and correctly rounded (half an ulp, 53-bit significand) for every integer, "
+               "None and same-class values pass through, declare(t, v) = cast(t, v). partial for general pure-mode "
+               "programs: only a fixed family of typed helper programs is run differentially.")
 TRUSTED = ["gcc's '/' and '%' on long as the C semantics oracle", "CPython int arithmetic"]
 ASSUMPTIONS = ["inputs stay within the declared C ranges (property text); b != 0 and not MIN/-1"]
 
@@ -49,6 +54,31 @@ def _helper(a, b):
 def f_identity(a, b):
     return _helper(a, b)
 
+@cython.locals(x=cython.double)
+def g_d2i(x):
+    return cython.cast(cython.int, x)
+
+@cython.locals(x=cython.double)
+def g_d2u(x):
+    return cython.cast(cython.uint, x)
+
+@cython.locals(z=cython.int)
+def g_decl(z):
+    v = cython.declare(cython.long, z)
+    return v
+
+@cython.locals(z=cython.long)
+def g_l2d(z):
+    return cython.cast(cython.double, z)
+
+@cython.locals(z=cython.longlong)
+def g_ll2d(z):
+    return cython.cast(cython.double, z)
+
+@cython.locals(z=cython.long)
+def g_l2l(z):
+    return cython.cast(cython.long, z)
+
 @cython.locals(a=cython.int, b=cython.int)
 def sweep8():
     out = []
@@ -62,6 +92,136 @@ def sweep8():
 '''
 
 
+def vtok(x):
+    """value token of the ShadowCast model driver (finite floats exactly as sign:mantissa:exponent)"""
+    import math
+    if x is None:
+        return "N"
+    if isinstance(x, int):
+        return "I%d" % x
+    if x != x:
+        return "Nan"
+    if x in (float("inf"), float("-inf")):
+        return "Inf%d" % (x < 0)
+    m, e = math.frexp(abs(x))
+    return "F%d:%d:%d" % (math.copysign(1, x) < 0, int(m * 2 ** 53), e - 53)
+
+
+def canon_tok(t):
+    if t.startswith("V F"):
+        s, m, e = [int(k) for k in t[3:].split(":")]
+        while m and m % 2 == 0:
+            m //= 2; e += 1
+        if m == 0:
+            e = 0
+        return "V F%d:%d:%d" % (s, m, e)
+    return t
+
+
+CAST_WORKER = r"""
+import sys, json, math
+import pyload; pyload.install()
+import Cython.Shadow as S
+pyload.assert_sources()
+spec = json.load(sys.stdin)
+class K1:
+    def __init__(self, *a): self.n = len(a)
+class K2:
+    def __init__(self, *a): self.n = len(a)
+KS = {1: K1, 2: K2}
+INST = {}
+def inst(c, i):
+    if (c, i) not in INST: INST[(c, i)] = KS[c]()
+    return INST[(c, i)]
+TY = {
+ "0:i": int, "0:f": float, "1:i": S.py_int, "1:f": S.py_float, "2:i": S.long, "2:i#u": S.uint, "2:i#s": S.short,
+ "3:i": S.const[S.long], "4:i": S.volatile[S.const[S.int]], "5:i": S.typedef(S.restrict[S.volatile[S.const[S.longlong]]]),
+ "2:f": S.double, "2:f#f": S.float, "3:f": S.const[S.double], "0:o1": K1, "1:o1": S.typedef(K1), "0:o2": K2,
+ "0:n": "notatype", "1:n": S.typedef("str"), "2:n": S.const[S.typedef(7)],
+}
+def val(t):
+    if t == "N": return None
+    if t == "Nan": return float("nan")
+    if t.startswith("Inf"): return float("-inf") if t[3] == "1" else float("inf")
+    if t[0] == "I": return int(t[1:])
+    if t[0] == "F":
+        s, m, e = [int(k) for k in t[1:].split(":")]
+        x = math.ldexp(m, e)
+        return -x if s else x
+    if t[0] == "O":
+        c, i = [int(k) for k in t[1:].split(":")]
+        return inst(c, i)
+    raise ValueError(t)
+def tok(x):
+    if x is None: return "N"
+    if type(x) is int: return "I%d" % x
+    if type(x) is float:
+        if x != x: return "Nan"
+        if x in (float("inf"), float("-inf")): return "Inf%d" % (x < 0)
+        m, e = math.frexp(abs(x))
+        return "F%d:%d:%d" % (math.copysign(1, x) < 0, int(m * 2 ** 53), e - 53)
+    for (c, i), o in INST.items():
+        if o is x: return "O%d:%d" % (c, i)
+    for c, k in KS.items():
+        if type(x) is k: return "W%d:%d" % (c, x.n)
+    return "?" + repr(x)
+out = []
+for mode, ty, vs in spec:
+    try:
+        args = [val(v) for v in vs]
+        r = S.cast(TY[ty], *args) if mode == "cast" else S.declare(TY[ty], *args)
+        out.append("V " + tok(r))
+    except Exception as e:
+        out.append("E " + type(e).__name__)
+print(json.dumps(out))
+"""
+
+CAST_TYPES = ["0:i", "0:f", "1:i", "1:f", "2:i", "2:i#u", "2:i#s", "3:i", "4:i", "5:i", "2:f", "2:f#f", "3:f",
+              "0:o1", "1:o1", "0:o2", "0:n", "1:n", "2:n"]
+
+
+def run_cast_matrix(ctx):
+    """Shadow.cast / Shadow.declare (sources of /repo, under CPython) against the extracted model on
+    type expressions x argument lists"""
+    quick = ctx.tier == "quick"
+    rng = ctx.rng
+    ints = [0, 1, -5, 2 ** 53, 2 ** 53 + 1, -(2 ** 53 + 3), 2 ** 54 + 2, 2 ** 54 + 6, 2 ** 70 + 12345, 10 ** 400,
+            2 ** 1024 - 2 ** 970, 2 ** 1024 - 2 ** 970 - 1, -(2 ** 1024), 2 ** 63 - 1, -2 ** 63]
+    ints += [(-1) ** k * rng.getrandbits(rng.randrange(1, 1100)) for k in range(30 if quick else 600)]
+    # ties and near-ties at every size
+    for k in range(10 if quick else 200):
+        n = rng.randrange(54, 200)
+        q = rng.getrandbits(53) | (1 << 52)
+        sh = n - 53
+        ints += [q << sh | 1 << (sh - 1), (q << sh | 1 << (sh - 1)) + rng.choice([-1, 1]), -(q << sh | 1 << (sh - 1))]
+    floats = [0.0, -0.0, 0.5, -0.5, -7.99, 2.5, 1e300, -1e300, 2.5e-300, 5e-324, 123456789.987, float("inf"), float("-inf"), float("nan")]
+    floats += [rng.uniform(-1, 1) * 2.0 ** rng.randrange(-80, 200) for _ in range(20 if quick else 400)]
+    vals = ["N", "O1:1", "O1:2", "O2:1"] + [vtok(z) for z in ints] + [vtok(x) for x in floats]
+    spec = []
+    for ty in CAST_TYPES:
+        spec.append(("cast", ty, []))
+        spec.append(("declare", ty, []))
+        for v in vals:
+            spec.append(("cast", ty, [v]))
+        for v in vals[:8] + rng.sample(vals, 6):
+            spec.append(("declare", ty, [v]))
+            spec.append(("cast", ty, [v, rng.choice(vals)]))
+        spec.append(("cast", ty, [rng.choice(vals) for _ in range(3)]))
+    r = cybuild.run_script(CAST_WORKER, os.path.join(ctx.workdir, "castw"), stdin_obj=spec, timeout=600)
+    if r["rc"] != 0 or not isinstance(r["json"], list) or len(r["json"]) != len(spec):
+        ctx.corr_break("shadowcast:worker", "cast matrix", (r["rc"], r["err"][-1500:]), "worker runs")
+        return
+    cmodel = ctx.model("shadowcast")
+    mres = cmodel.batch(["%s %s %s" % (mode, ty.split("#")[0], " ".join(vs)) for mode, ty, vs in spec])
+    for (mode, ty, vs), got, m in zip(spec, r["json"], mres):
+        inp = {"helper": mode, "type": ty, "args": vs}
+        ctx.case("shadow_" + mode, inp, sig=(mode, ty, tuple(vs)))
+        if canon_tok(got) != canon_tok(m):
+            ctx.corr_break("shadowcast:" + mode, inp, got, m)
+    ctx.extra.setdefault("input_distribution", {})["cast_matrix"] = {
+        "type_expressions": len(CAST_TYPES), "values": len(vals), "calls": len(spec)}
+
+
 def trunc_div(a, b):
     q = abs(a) // abs(b)
     return q if (a < 0) == (b < 0) else -q
@@ -70,6 +230,7 @@ def trunc_div(a, b):
 def run(ctx):
     quick = ctx.tier == "quick"
     wd = ctx.workdir
+    run_cast_matrix(ctx)
     cdir = os.path.join(wd, "compiled")
     idir = os.path.join(wd, "interp")
     os.makedirs(idir, exist_ok=True)
@@ -100,6 +261,20 @@ def run(ctx):
         cases.append(("f_cast_obj", [x]))
     for a, b in [(0, 10), (-50, 50), (-3, 2), (5, 5), (7, 3), (-1000, 1000)]:
         cases.append(("f_loop", [a, b]))
+    gcases = []
+    for x in casts + [float(ctx.rng.randrange(-2 ** 31, 2 ** 31)) + ctx.rng.random() for _ in range(10 if quick else 200)]:
+        if abs(x) < 2 ** 31 - 1:
+            gcases.append(("g_d2i", x))
+            if x > -1.0:
+                gcases.append(("g_d2u", x))
+        if abs(x) < 2 ** 31 - 1:
+            gcases.append(("g_decl", int(x)))
+    zs = [0, 1, -1, 2 ** 53, 2 ** 53 + 1, -(2 ** 53 + 3), 2 ** 53 + 2, 2 ** 54 + 2, 2 ** 54 + 6, hi, lo, hi - 511, hi - 512, hi - 513, 12345]
+    zs += [(-1) ** k * ctx.rng.getrandbits(ctx.rng.randrange(50, 64)) for k in range(20 if quick else 400)]
+    for z in zs:
+        gcases += [("g_l2d", z), ("g_ll2d", z), ("g_l2l", z)]
+    for fn, v in gcases:
+        cases.append((fn, [v]))
     cases.append(("sweep8", []))
     call = [["c38_pure.%s" % fn, args] for fn, args in cases]
     # compiled run
@@ -125,6 +300,10 @@ def run(ctx):
         elif fn == "f_cmod":
             mq2.append("cmod_c 64 1 %d %d" % tuple(args))
     mres2 = iter(model.batch(mq2))
+    cmodel = ctx.model("shadowcast")
+    GT = {"g_d2i": "2:i", "g_d2u": "2:i", "g_decl": "2:i", "g_l2d": "2:f", "g_ll2d": "2:f", "g_l2l": "2:i"}
+    gq = ["%s %s %s" % ("declare" if fn == "g_decl" else "cast", GT[fn], vtok(args[0])) for fn, args in cases if fn in GT]
+    gres = iter(cmodel.batch(gq))
     for (fn, args), c, i, q in zip(cases, rc, ri, mq):
         inp = {"func": fn, "args": args}
         if fn == "sweep8":
@@ -165,6 +344,11 @@ def run(ctx):
             exp = qq if "div" in fn else a - qq * b
             if cc != ("int", repr(exp)):
                 ctx.fail("not_c_semantics", inp, cc, exp)
+        elif fn in GT:
+            m = canon_tok(next(gres))
+            got = canon_tok("E " + cc[1].split(":")[0] if cc[0] == "exc" else "V " + vtok(float.fromhex(cc[1]) if cc[0] == "float" else int(cc[1])))
+            if m != got:
+                ctx.corr_break("shadowcast:typed-cast", inp, got, m)
         elif fn == "f_identity":
             if cc != ("int", repr(args[0])):
                 ctx.fail("div_mod_identity", inp, cc, args[0])
